@@ -31,7 +31,7 @@ const mod = "github.com/alpacahq/marketstore/v4/"
 // What to extract is configured by the JSON files in wants.d/ next to this source (merged):
 //   {"packages": ["utils/io", ...],
 //    "consts": {"utils/io": ["Headersize", ...]},      integer / float constants (package level or function local)
-//    "skeletons": ["executor:WALFileType.FlushCommandsToWAL", ...]}   "pkg:Recv.Name" or "pkg:Name" (optional suffix "+builtins")
+//    "skeletons": ["executor:WALFileType.FlushCommandsToWAL", ...]}   "pkg:Recv.Name" or "pkg:Name" (optional suffixes "+builtins", "+exprs")
 var pkgPaths []string
 var wantConsts = map[string][]string{}
 var wantSkeletons []string
@@ -399,6 +399,11 @@ func main() {
 		// a spec ending in "+args" prints every call atom with its argument expressions
 		withArgs := strings.HasSuffix(spec, "+args")
 		spec = strings.TrimSuffix(spec, "+args")
+		// a spec ending in "+exprs" also lists every assignment as "assign:<lhs>=<rhs>" and the
+		// returned expressions as "ret:<exprs>" (operand order, literals and comparison operators
+		// become visible; C24, C32)
+		withExprs := strings.HasSuffix(spec, "+exprs")
+		spec = strings.TrimSuffix(spec, "+exprs")
 		withBuiltins := strings.HasSuffix(spec, "+builtins")
 		spec = strings.TrimSuffix(spec, "+builtins")
 		parts := strings.SplitN(spec, ":", 2)
@@ -417,7 +422,7 @@ func main() {
 		}
 		var atoms []string
 		if fd != nil {
-			atoms = skeleton(p, fd, withBuiltins, withArgs)
+			atoms = skeleton(p, fd, withBuiltins, withArgs, withExprs)
 		}
 		fmt.Fprintf(&sb, "def %s : List String := [", leanName(spec))
 		for i, a := range atoms {
@@ -474,7 +479,7 @@ func findFunc(p *packages.Package, name string) *ast.FuncDecl {
 // skeleton lists, in source order, every call (by the selector / function name), channel
 // operation, assignment to a struct field, and return, with "{"/"}" markers for control
 // structure so that "inside which branch / loop / goroutine" stays visible.
-func skeleton(p *packages.Package, fd *ast.FuncDecl, withBuiltins, withArgs bool) []string {
+func skeleton(p *packages.Package, fd *ast.FuncDecl, withBuiltins, withArgs, withExprs bool) []string {
 	var out []string
 	var walkStmt func(s ast.Stmt)
 	var walkExpr func(e ast.Expr)
@@ -556,6 +561,16 @@ func skeleton(p *packages.Package, fd *ast.FuncDecl, withBuiltins, withArgs bool
 			for _, r := range x.Rhs {
 				walkExpr(r)
 			}
+			if withExprs {
+				var ls, rs []string
+				for _, l := range x.Lhs {
+					ls = append(ls, types.ExprString(l))
+				}
+				for _, r := range x.Rhs {
+					rs = append(rs, types.ExprString(r))
+				}
+				out = append(out, "assign:"+strings.Join(ls, ",")+"="+strings.Join(rs, ","))
+			}
 			for _, l := range x.Lhs {
 				if se, ok := l.(*ast.SelectorExpr); ok {
 					out = append(out, "set:"+types.ExprString(se))
@@ -582,6 +597,13 @@ func skeleton(p *packages.Package, fd *ast.FuncDecl, withBuiltins, withArgs bool
 		case *ast.ReturnStmt:
 			for _, r := range x.Results {
 				walkExpr(r)
+			}
+			if withExprs && len(x.Results) > 0 {
+				var rs []string
+				for _, r := range x.Results {
+					rs = append(rs, types.ExprString(r))
+				}
+				out = append(out, "ret:"+strings.Join(rs, ","))
 			}
 			out = append(out, "return")
 		case *ast.BlockStmt:
